@@ -13,8 +13,8 @@ Source mirrored: `src/expr.cc`, `include/mp/expr.h`, `include/mp/basic-expr-visi
   equivalence (IEEE: symmetric, transitive, not reflexive at NaN).
 * `equalX` returns an outcome `R`: `tt`/`ff` (returned `true`/`false`), `unsup` (threw
   `UnsupportedError` — kinds for which neither ExprComparator nor BasicExprVisitor defines
-  anything but `VisitUnsupported`), `ub` (dereferences a null `Impl*`: a call argument that is
-  neither numeric nor a string literal).  `R.and` is C++ `&&`/early `return false`: the right
+  anything but `VisitUnsupported`), `ub` (null dereference; no longer produced by any path since the
+  fix of `VisitCall`, see `C18_no_ub`).  `R.and` is C++ `&&`/early `return false`: the right
   operand only matters when the left one is `tt`.
 * `hashX` returns `none` when ExprHasher throws `UnsupportedError`, otherwise the 64-bit value
   computed with `HashCombine`; the primitive hashers (`std::hash<int|double|bool|char|const char*>`,
@@ -99,10 +99,10 @@ def Kind.isNumeric : Kind → Bool
     | _ => false
   | .bool | .string => false
 
-/-- Iterated kinds that reach `VisitUnsupported` in *both* visitors: ExprComparator/ExprHasher
-define `VisitAllDiff` but not `VisitNotAllDiff`, and nothing for `VisitNumberOfSym`. -/
+/-- Iterated kinds that reach `VisitUnsupported` in *both* visitors: nothing is defined for
+`VisitNumberOfSym`. -/
 def IterK.unsupported : IterK → Bool
-  | .numberOfSym | .notAllDiff => true
+  | .numberOfSym => true
   | _ => false
 
 /-- Floating constants with C++ `==`. -/
@@ -187,7 +187,7 @@ def equalArgs : List (E C) → List (E C) → R
        else if a.kind.isNumeric then equalX a b
        else match a, b with
          | .str s, .str s' => R.ofBool (cstr s == cstr s')   -- strcmp(...) == 0
-         | _, _ => R.ub                                       -- Cast<StringLiteral>(arg) is null
+         | _, _ => equalX a b                                 -- neither numeric nor string: Equal(arg, other_arg)
       ).and (equalArgs as bs)
   | _, _ => .tt
 end
@@ -280,7 +280,7 @@ end
 
 mutual
 /-- every node is one ExprComparator handles: as `okH`, and string literals occur only as call
-arguments, and every call argument is numeric or a string literal -/
+arguments -/
 def okC : E C → Bool
   | .num _ | .ref _ _ | .bool _ => true
   | .str _ => false
@@ -295,26 +295,7 @@ def okCList : List (E C) → Bool
   | a :: as => okC a && okCList as
 def okCArgs : List (E C) → Bool
   | [] => true
-  | a :: as => (if a.kind.isNumeric then okC a else a.kind == .string) && okCArgs as
-end
-
-mutual
-/-- every call argument anywhere in the tree is numeric or a string literal (what the NL format
-calls a call argument minus symbolic `if`) -/
-def argsOk : E C → Bool
-  | .num _ | .ref _ _ | .bool _ | .str _ => true
-  | .un _ a => argsOk a
-  | .bin _ l r => argsOk l && argsOk r
-  | .ite _ c t e => argsOk c && (argsOk t && argsOk e)
-  | .pl _ _ arg => argsOk arg
-  | .call _ as => argsOkArgs as
-  | .iter _ as => argsOkList as
-def argsOkList : List (E C) → Bool
-  | [] => true
-  | a :: as => argsOk a && argsOkList as
-def argsOkArgs : List (E C) → Bool
-  | [] => true
-  | a :: as => ((a.kind.isNumeric || a.kind == .string) && argsOk a) && argsOkArgs as
+  | a :: as => (if a.kind.isNumeric then okC a else (a.kind == .string || okC a)) && okCArgs as
 end
 
 variable (N : NumOps C)
